@@ -1,8 +1,1592 @@
-// C02 harness (stub: replaced by the real harness).
-use crate::vx::report::Report;
+// C02 — selected and ranked paths are always maximal under the stated decision order.
+//
+// Part (a): bounded-exhaustive enumeration of small path sets (all ordered
+//   pairs of a product of small colliding per-step domains, all ordered triples
+//   over a cover), each inserted into a fresh real `Table` in EVERY arrival order.
+// Part (b): explicit-state BFS (vx::bfs) over histories on one prefix mixing
+//   insert / replace / remove / peer drop / restale / restale_llgr /
+//   drop_stale / drop_llgr_stale / next-hop validity flips / reconnect.
+//
+// The oracle is the statement's chain written as a boring step-by-step
+// comparison over a description of the path that the HARNESS generated
+// (`RefPath`); it never parses attributes with the code under test and never
+// calls the subject's comparator.
 
-pub fn run(_replay: Option<&str>) -> Report {
+use crate::universe::*;
+use crate::vx::bfs::{self, BfsCfg, Model};
+use crate::vx::enumr;
+use crate::vx::report::{self, Report, Violation};
+use rustybgp_packet::evpn::{Esi, EvpnNlri, MacIpAdvertisement};
+use rustybgp_packet::rd::RouteDistinguisher;
+use rustybgp_packet::{Attribute, Family, Nlri};
+use rustybgp_table::{InsertResult, NlriChange, PeerRole, Source, Table, TableQuery};
+use std::cmp::Ordering;
+use std::collections::{BTreeMap, BTreeSet};
+use std::net::{IpAddr, Ipv4Addr};
+use std::sync::Arc;
+
+// ---------------------------------------------------------------------------
+// Reference model
+// ---------------------------------------------------------------------------
+
+/// What the statement's decision order looks at, per path.  Filled in from the
+/// harness's own description of the path it built.
+#[derive(Clone, Debug, PartialEq, Eq)]
+struct RefPath {
+    /// MAC-mobility sequence number (EVPN type-2 prefixes only)
+    mm: Option<u32>,
+    /// LLGR-stale: source flag OR LLGR_STALE community
+    llgr: bool,
+    /// LOCAL_PREF, 100 when absent
+    lp: u32,
+    /// AS hops: SEQ members, 1 per AS_SET, 0 for confederation segments
+    aslen: usize,
+    origin: u8,
+    /// learned over eBGP (Ebgp, RsClient); iBGP and confed-eBGP are false
+    ext: bool,
+    /// graceful-restart stale (source flag)
+    gr: bool,
+    /// CLUSTER_LIST length
+    cl: usize,
+    /// ORIGINATOR_ID if present, else the peer's router-id
+    oid: u32,
+}
+
+const STEPS: [&str; 9] = [
+    "mac-mobility",
+    "llgr-stale",
+    "local-pref",
+    "as-path",
+    "origin",
+    "ebgp",
+    "gr-stale",
+    "cluster-list",
+    "router-id",
+];
+const STEP_RID: usize = 8;
+const STEP_ASPATH: usize = 3;
+
+/// One step of the statement's chain.  Less = `a` is preferred.
+/// `reading` only matters for the MAC-mobility step: 0 = an absent community
+/// counts as sequence 0 (RFC 7432 §15), 1 = a present community beats an
+/// absent one, then higher sequence.  The statement does not say, both are accepted.
+fn step_cmp(step: usize, a: &RefPath, b: &RefPath, evpn: bool, reading: u8) -> Ordering {
+    match step {
+        0 => {
+            if !evpn {
+                Ordering::Equal
+            } else if reading == 0 {
+                b.mm.unwrap_or(0).cmp(&a.mm.unwrap_or(0))
+            } else {
+                (b.mm.is_some(), b.mm.unwrap_or(0)).cmp(&(a.mm.is_some(), a.mm.unwrap_or(0)))
+            }
+        }
+        1 => a.llgr.cmp(&b.llgr),
+        2 => b.lp.cmp(&a.lp),
+        3 => a.aslen.cmp(&b.aslen),
+        4 => a.origin.cmp(&b.origin),
+        5 => b.ext.cmp(&a.ext),
+        6 => a.gr.cmp(&b.gr),
+        7 => a.cl.cmp(&b.cl),
+        _ => a.oid.cmp(&b.oid),
+    }
+}
+
+/// Full chain: (ordering, deciding step or 9 when completely tied).
+fn ref_cmp(a: &RefPath, b: &RefPath, evpn: bool, reading: u8) -> (Ordering, usize) {
+    for s in 0..9 {
+        let o = step_cmp(s, a, b, evpn, reading);
+        if o != Ordering::Equal {
+            return (o, s);
+        }
+    }
+    (Ordering::Equal, 9)
+}
+
+/// Tied on every step before the router-id step.
+fn tied_before_rid(a: &RefPath, b: &RefPath, evpn: bool, reading: u8) -> Option<usize> {
+    (0..STEP_RID).find(|&s| step_cmp(s, a, b, evpn, reading) != Ordering::Equal)
+}
+
+// ---------------------------------------------------------------------------
+// Attribute kinds (shared by both parts)
+// ---------------------------------------------------------------------------
+
+/// (segment type, member count) list per AS_PATH shape.
+fn asp_spec(i: u8) -> Vec<(u8, usize)> {
+    const SET: u8 = 1;
+    const SEQ: u8 = 2;
+    const CSEQ: u8 = 3;
+    const CSET: u8 = 4;
+    match i {
+        0 => vec![],
+        1 => vec![(SEQ, 1)],
+        2 => vec![(SEQ, 2)],
+        3 => vec![(SET, 2)],
+        4 => vec![(CSEQ, 2), (SEQ, 1)],
+        5 => vec![(SEQ, 255), (SEQ, 1)],
+        6 => vec![(SEQ, 255), (SEQ, 255)],
+        7 => vec![(SEQ, 255), (SEQ, 3)],
+        _ => vec![(CSET, 2), (SET, 3), (SEQ, 1)],
+    }
+}
+const ASP_NAMES: [&str; 9] = ["empty", "SEQ1", "SEQ2", "SET2", "CSEQ2+SEQ1", "SEQ255+SEQ1", "SEQ255+SEQ255", "SEQ255+SEQ3", "CSET2+SET3+SEQ1"];
+
+/// Hop count by the statement: SEQ counts its members, an AS_SET one, confederation segments zero.
+fn ref_as_len(spec: &[(u8, usize)]) -> usize {
+    let mut n = 0usize;
+    for (t, c) in spec {
+        match t {
+            2 => n += c,
+            1 => n += 1,
+            _ => {}
+        }
+    }
+    n
+}
+
+fn asp_attr(i: u8) -> Attribute {
+    let spec = asp_spec(i);
+    let segs: Vec<(u8, Vec<u32>)> = spec
+        .iter()
+        .enumerate()
+        .map(|(k, (t, c))| (*t, (0..*c).map(|j| 65100 + ((j + 7 * k) as u32 % 97)).collect()))
+        .collect();
+    as_path(&segs)
+}
+
+fn mac_mobility_attr(seq: u32) -> Attribute {
+    // RFC 7432 §7.7: type 0x06, sub-type 0x00, flags, reserved, 4-octet sequence number
+    let mut ec = vec![0x06u8, 0x00, 0x00, 0x00];
+    ec.extend_from_slice(&seq.to_be_bytes());
+    Attribute::new_with_bin(Attribute::EXTENDED_COMMUNITY, ec).unwrap()
+}
+
+/// Attribute content of a path.
+#[derive(Clone, Copy, Debug, PartialEq, Eq, Hash, PartialOrd, Ord)]
+struct AttrK {
+    /// 0 none, 1 sequence 0, 2 sequence 5
+    mm: u8,
+    /// carries the LLGR_STALE community
+    comm: bool,
+    /// 0 absent, 1 = 100, 2 = 200
+    lp: u8,
+    asp: u8,
+    origin: u8,
+    /// CLUSTER_LIST length 0 (absent), 1, 2
+    cl: u8,
+    orig: Option<u32>,
+    /// MED present (not part of the stated order; must not matter)
+    med: bool,
+}
+
+fn mm_val(mm: u8) -> Option<u32> {
+    match mm {
+        0 => None,
+        1 => Some(0),
+        _ => Some(5),
+    }
+}
+
+fn build_attrs(k: &AttrK) -> Vec<Attribute> {
+    let mut v = vec![origin(k.origin as u32), asp_attr(k.asp)];
+    if k.med {
+        v.push(med(5));
+    }
+    match k.lp {
+        0 => {}
+        1 => v.push(local_pref(100)),
+        _ => v.push(local_pref(200)),
+    }
+    if k.comm {
+        v.push(communities(&[0xffff_0001 - 0xffff_0001 + 65000 * 65536 + 1, LLGR_STALE]));
+    }
+    if let Some(o) = k.orig {
+        v.push(originator(o));
+    }
+    match k.cl {
+        0 => {}
+        1 => v.push(cluster_list(&[0x0b000001])),
+        _ => v.push(cluster_list(&[0x0b000001, 0x0b000002])),
+    }
+    if let Some(seq) = mm_val(k.mm) {
+        v.push(mac_mobility_attr(seq));
+    }
+    v
+}
+
+fn is_ext(role: PeerRole) -> bool {
+    // the statement: "eBGP over iBGP/confed-eBGP"; a route-server client is an eBGP peer
+    matches!(role, PeerRole::Ebgp | PeerRole::RsClient)
+}
+
+fn ref_of(k: &AttrK, role: PeerRole, rid: u32, gr: bool, llgr_flag: bool) -> RefPath {
+    RefPath {
+        mm: mm_val(k.mm),
+        llgr: llgr_flag || k.comm,
+        lp: match k.lp {
+            2 => 200,
+            _ => 100,
+        },
+        aslen: ref_as_len(&asp_spec(k.asp)),
+        origin: k.origin,
+        ext: is_ext(role),
+        gr,
+        cl: k.cl as usize,
+        oid: k.orig.unwrap_or(rid),
+    }
+}
+
+fn attr_name(k: &AttrK) -> String {
+    format!(
+        "{}lp{} {} o{} cl{}{}{}{}",
+        match k.mm {
+            0 => "".to_string(),
+            m => format!("mm{} ", mm_val(m).unwrap()),
+        },
+        ["-", "100", "200"][k.lp as usize],
+        ASP_NAMES[k.asp as usize],
+        k.origin,
+        k.cl,
+        if k.comm { " LLGR_STALE" } else { "" },
+        match k.orig {
+            Some(o) => format!(" orig{:x}", o),
+            None => String::new(),
+        },
+        if k.med { " med" } else { "" }
+    )
+}
+
+const ROLES: [PeerRole; 5] = [PeerRole::Ebgp, PeerRole::RsClient, PeerRole::Ibgp, PeerRole::IbgpRrClient, PeerRole::ConfedEbgp];
+const ROLE_NAMES: [&str; 5] = ["ebgp", "rs", "ibgp", "rrc", "confed"];
+
+fn evpn_net() -> Nlri {
+    Nlri::Evpn(EvpnNlri::MacIpAdvertisement(MacIpAdvertisement {
+        rd: RouteDistinguisher::TwoOctetAs { admin: 1, assigned: 1 },
+        esi: Esi::ZERO,
+        etag: 0,
+        mac: [0xaa, 0xbb, 0xcc, 0xdd, 0xee, 0x01],
+        ip: None,
+        label1: 100,
+        label2: None,
+    }))
+}
+
+fn the_net(evpn: bool) -> (Family, Nlri) {
+    if evpn { (Family::L2VPN_EVPN, evpn_net()) } else { (Family::IPV4, v4(10, 1, 0, 0, 24)) }
+}
+
+// ---------------------------------------------------------------------------
+// Observation of the subject and the oracle
+// ---------------------------------------------------------------------------
+
+/// One path of the current set, as the harness knows it.
+struct PInfo {
+    label: String,
+    r: RefPath,
+    filtered: bool,
+    nh_invalid: bool,
+    rs_client: bool,
+    addr: IpAddr,
+    src_ptr: usize,
+    attr_ptr: usize,
+}
+
+impl PInfo {
+    fn eligible(&self) -> bool {
+        !self.filtered && !self.nh_invalid
+    }
+}
+
+const UNKNOWN: usize = usize::MAX;
+
+fn ident(paths: &[PInfo], src: &Arc<Source>, attr: &Arc<Vec<Attribute>>) -> usize {
+    let s = Arc::as_ptr(src) as usize;
+    let a = Arc::as_ptr(attr) as usize;
+    paths.iter().position(|p| p.src_ptr == s && p.attr_ptr == a).unwrap_or(UNKNOWN)
+}
+
+#[derive(Clone, Debug, PartialEq, Eq)]
+struct Ranking {
+    ranked: Vec<usize>,
+    ecmp: Vec<usize>,
+    best: Option<usize>,
+}
+
+fn ranking_of(paths: &[PInfo], c: &NlriChange) -> Ranking {
+    Ranking {
+        ranked: c.current_paths.iter().map(|p| ident(paths, &p.source, &p.attr)).collect(),
+        ecmp: c.ecmp_paths().iter().map(|p| ident(paths, &p.source, &p.attr)).collect(),
+        best: c.new_best().map(|p| ident(paths, &p.source, &p.attr)),
+    }
+}
+
+struct Obs {
+    rk: Ranking,
+    /// destinations(Global, enable_filtered = false), as ListPath shows it
+    global: Vec<usize>,
+    /// (viewer, shown paths) for destinations(RsLocal(viewer))
+    rs: Vec<(IpAddr, Vec<usize>)>,
+}
+
+fn observe_table(t: &Table, fam: Family, net: &Nlri, paths: &[PInfo], viewers: &[IpAddr]) -> Obs {
+    let dump = t.collect_loc_rib_paths(&fam);
+    let rk = match dump.iter().find(|c| &c.net == net) {
+        Some(c) => ranking_of(paths, c),
+        None => Ranking { ranked: vec![], ecmp: vec![], best: None },
+    };
+    let mut global = Vec::new();
+    for d in t.destinations(TableQuery::Global, fam, vec![], false) {
+        if &d.net == net {
+            global = d.paths.iter().map(|p| ident(paths, &p.source, &p.attr)).collect();
+        }
+    }
+    let mut rs = Vec::new();
+    for v in viewers {
+        let mut shown = Vec::new();
+        for d in t.destinations(TableQuery::RsLocal(*v), fam, vec![], false) {
+            if &d.net == net {
+                shown = d.paths.iter().map(|p| ident(paths, &p.source, &p.attr)).collect();
+            }
+        }
+        rs.push((*v, shown));
+    }
+    Obs { rk, global, rs }
+}
+
+fn lab(paths: &[PInfo], i: usize) -> String {
+    if i == UNKNOWN { "<unknown path>".into() } else { paths[i].label.clone() }
+}
+fn labs(paths: &[PInfo], v: &[usize]) -> String {
+    let x: Vec<String> = v.iter().map(|&i| lab(paths, i)).collect();
+    format!("[{}]", x.join(" | "))
+}
+
+/// Signature tail for a mis-ordered pair: `x` is placed before `y` although
+/// `y` is preferred at reference step `d`.
+fn order_shape(x: &RefPath, y: &RefPath, d: usize, evpn: bool, reading: u8) -> String {
+    if d == STEP_ASPATH && x.aslen.max(y.aslen) > 255 {
+        return "as-path-length-over-255".into();
+    }
+    // the first later step at which the wrongly preferred path is better: the
+    // step the subject apparently let decide
+    let s = (d + 1..9).find(|&s| step_cmp(s, x, y, evpn, reading) == Ordering::Less);
+    format!("{}-vs-{}", STEPS[d], s.map(|s| STEPS[s]).unwrap_or("none"))
+}
+
+/// Ranking clauses (membership, order, best, ECMP) for one ranked list.
+/// Returns (violations, order_or_membership_broken).
+fn judge_ranking(paths: &[PInfo], rk: &Ranking, evpn: bool, reading: u8, whence: &str) -> (Vec<(String, String)>, bool) {
+    let mut out = Vec::new();
+    let elig: Vec<usize> = (0..paths.len()).filter(|&i| paths[i].eligible()).collect();
+    let mut broken = false;
+    // membership
+    let mut seen = BTreeSet::new();
+    for &i in &rk.ranked {
+        if i == UNKNOWN {
+            out.push(("C02/eligibility/unknown-path-listed".into(), format!("{whence}: the ranked list {} contains a path that is not in the RIB", labs(paths, &rk.ranked))));
+            broken = true;
+            continue;
+        }
+        if !seen.insert(i) {
+            out.push(("C02/eligibility/duplicate-entry".into(), format!("{whence}: the ranked list {} lists {} twice", labs(paths, &rk.ranked), lab(paths, i))));
+            broken = true;
+        }
+        if paths[i].filtered {
+            out.push(("C02/eligibility/filtered-listed/ranking".into(), format!("{whence}: path {} was rejected by import policy but is in the ranked list {}", lab(paths, i), labs(paths, &rk.ranked))));
+            broken = true;
+        } else if paths[i].nh_invalid {
+            out.push(("C02/eligibility/nexthop-invalid-listed/ranking".into(), format!("{whence}: path {} has an unreachable next hop but is in the ranked list {}", lab(paths, i), labs(paths, &rk.ranked))));
+            broken = true;
+        }
+    }
+    for &e in &elig {
+        if !seen.contains(&e) {
+            out.push(("C02/eligibility/eligible-missing".into(), format!("{whence}: eligible path {} is missing from the ranked list {}", lab(paths, e), labs(paths, &rk.ranked))));
+            broken = true;
+        }
+    }
+    // order: sorted non-increasingly by the reference (adjacent pairs suffice for a total preorder)
+    let known: Vec<usize> = rk.ranked.iter().copied().filter(|&i| i != UNKNOWN).collect();
+    for w in known.windows(2) {
+        let (x, y) = (&paths[w[0]].r, &paths[w[1]].r);
+        let (o, d) = ref_cmp(x, y, evpn, reading);
+        if o == Ordering::Greater {
+            out.push((
+                format!("C02/order/{}", order_shape(x, y, d, evpn, reading)),
+                format!(
+                    "{whence}: ranked list {} places {} before {} although the latter is preferred at step '{}' of the stated order",
+                    labs(paths, &rk.ranked),
+                    lab(paths, w[0]),
+                    lab(paths, w[1]),
+                    STEPS[d]
+                ),
+            ));
+            broken = true;
+            break;
+        }
+    }
+    // best
+    match rk.best {
+        None => {
+            if !elig.is_empty() && !broken {
+                out.push(("C02/best/none-selected".into(), format!("{whence}: no best path although {} are eligible", labs(paths, &elig))));
+            }
+        }
+        Some(b) => {
+            if !broken {
+                if b == UNKNOWN || !paths[b].eligible() {
+                    out.push(("C02/best/ineligible-selected".into(), format!("{whence}: best path {} is not eligible", lab(paths, b))));
+                } else if let Some(&e) = elig.iter().find(|&&e| ref_cmp(&paths[e].r, &paths[b].r, evpn, reading).0 == Ordering::Less) {
+                    let d = ref_cmp(&paths[e].r, &paths[b].r, evpn, reading).1;
+                    out.push((format!("C02/best/not-maximal/{}", STEPS[d]), format!("{whence}: best path is {} but {} beats it at step '{}'", lab(paths, b), lab(paths, e), STEPS[d])));
+                }
+            }
+        }
+    }
+    // ECMP: the longest prefix of the ranking whose members tie with the best before the router-id step.
+    // Only judged when the ranking itself is right (root cause first).  For EVPN the ECMP
+    // set has no consumer (the FIB only takes IP prefixes): only prefix-ness is checked there.
+    if !broken {
+        let is_prefix = rk.ecmp.len() <= rk.ranked.len() && rk.ecmp.iter().zip(rk.ranked.iter()).all(|(a, b)| a == b);
+        if !is_prefix {
+            out.push(("C02/ecmp/not-a-prefix".into(), format!("{whence}: ecmp_paths {} is not a prefix of the ranked list {}", labs(paths, &rk.ecmp), labs(paths, &rk.ranked))));
+        } else if !evpn && !rk.ranked.is_empty() {
+            let b = &paths[rk.ranked[0]].r;
+            let want = rk.ranked.iter().take_while(|&&i| tied_before_rid(b, &paths[i].r, evpn, reading).is_none()).count();
+            if rk.ecmp.len() > want {
+                let m = rk.ranked[want];
+                let s = tied_before_rid(b, &paths[m].r, evpn, reading).unwrap();
+                out.push((
+                    format!("C02/ecmp/includes-path-differing-at-{}", STEPS[s]),
+                    format!("{whence}: ecmp_paths {} includes {} which differs from the best path at step '{}' (before the router-id step)", labs(paths, &rk.ecmp), lab(paths, m), STEPS[s]),
+                ));
+            } else if rk.ecmp.len() < want {
+                out.push((
+                    "C02/ecmp/excludes-tied-path".into(),
+                    format!("{whence}: ecmp_paths {} stops before {} which ties with the best path on every step before router-id", labs(paths, &rk.ecmp), lab(paths, rk.ranked[rk.ecmp.len()])),
+                ));
+            }
+        }
+    }
+    (out, broken)
+}
+
+/// All clauses for one observed table state under one reading of the MAC-mobility step.
+fn judge(paths: &[PInfo], obs: &Obs, evpn: bool, reading: u8) -> Vec<(String, String)> {
+    let (mut out, broken) = judge_ranking(paths, &obs.rk, evpn, reading, "Loc-RIB dump");
+    // Global view (ListPath): same head, eligible paths in the same order
+    let g_known: Vec<usize> = obs.global.iter().copied().filter(|&i| i != UNKNOWN).collect();
+    if obs.global.iter().any(|&i| i == UNKNOWN) {
+        out.push(("C02/eligibility/unknown-path-listed".into(), "destinations(Global) lists a path that is not in the RIB".into()));
+    }
+    if let Some(&f) = g_known.iter().find(|&&i| paths[i].filtered) {
+        out.push(("C02/eligibility/filtered-listed/global-view".into(), format!("destinations(Global, enable_filtered=false) lists the policy-rejected path {}", lab(paths, f))));
+    }
+    if let Some(&h) = g_known.first() {
+        if paths[h].nh_invalid && !paths[h].filtered {
+            out.push((
+                "C02/eligibility/nexthop-invalid-listed/global-view".into(),
+                format!(
+                    "destinations(Global) lists {} first (the position API clients read as best) although its next hop is unreachable; selected best is {}",
+                    lab(paths, h),
+                    obs.rk.best.map(|b| lab(paths, b)).unwrap_or_else(|| "none".into())
+                ),
+            ));
+        }
+    }
+    let g_elig: Vec<usize> = g_known.iter().copied().filter(|&i| paths[i].eligible()).collect();
+    if !broken && g_elig != obs.rk.ranked {
+        out.push(("C02/global-view/differs-from-ranking".into(), format!("destinations(Global) orders the eligible paths {} but the ranked list is {}", labs(paths, &g_elig), labs(paths, &obs.rk.ranked))));
+    }
+    // RS-local view: a reference-maximal path among the other RS clients' unfiltered paths
+    for (viewer, shown) in &obs.rs {
+        let cands: Vec<usize> = (0..paths.len()).filter(|&i| paths[i].rs_client && paths[i].addr != *viewer && !paths[i].filtered).collect();
+        if cands.is_empty() {
+            if !shown.is_empty() {
+                out.push(("C02/rs-local/shown-without-candidate".into(), format!("RsLocal({viewer}) shows {} but no other RS client has an unfiltered path", labs(paths, shown))));
+            }
+            continue;
+        }
+        if shown.len() != 1 || shown[0] == UNKNOWN || !cands.contains(&shown[0]) {
+            out.push(("C02/rs-local/wrong-candidate-set".into(), format!("RsLocal({viewer}) shows {} but the candidates are {}", labs(paths, shown), labs(paths, &cands))));
+            continue;
+        }
+        let s = shown[0];
+        let maximal_in = |set: &[usize]| set.contains(&s) && !set.iter().any(|&c| ref_cmp(&paths[c].r, &paths[s].r, evpn, reading).0 == Ordering::Less);
+        // accepted: maximal among all unfiltered candidates, or among those whose next hop is reachable
+        let valid: Vec<usize> = cands.iter().copied().filter(|&i| !paths[i].nh_invalid).collect();
+        if maximal_in(&cands) || (!valid.is_empty() && maximal_in(&valid)) {
+            continue;
+        }
+        // does the pick follow the table's own order (then the mis-ranking is the root cause)?
+        let all_order: Vec<usize> = {
+            // entry order as shown by the global view restricted to candidates
+            g_known.iter().copied().filter(|i| cands.contains(i)).collect()
+        };
+        let follows = all_order.first() == Some(&s);
+        let better = cands.iter().copied().find(|&c| ref_cmp(&paths[c].r, &paths[s].r, evpn, reading).0 == Ordering::Less).unwrap();
+        let d = ref_cmp(&paths[better].r, &paths[s].r, evpn, reading).1;
+        out.push((
+            format!("C02/rs-local/not-maximal/{}", if follows { "follows-table-order" } else { "against-table-order" }),
+            format!("RsLocal({viewer}) shows {} but RS client path {} beats it at step '{}' (candidates in table order: {})", lab(paths, s), lab(paths, better), STEPS[d], labs(paths, &all_order)),
+        ));
+    }
+    out
+}
+
+/// Judge under every accepted reading; the state passes if it passes under one.
+fn judge_any(paths: &[PInfo], obs: &Obs, evpn: bool) -> (Vec<(String, String)>, u8) {
+    let v1 = judge(paths, obs, evpn, 1);
+    if !evpn || v1.is_empty() {
+        return (v1, 1);
+    }
+    let v0 = judge(paths, obs, evpn, 0);
+    if v0.len() < v1.len() { (v0, 0) } else { (v1, 1) }
+}
+
+fn has_complete_tie(paths: &[PInfo], evpn: bool) -> bool {
+    let e: Vec<&PInfo> = paths.iter().filter(|p| p.eligible()).collect();
+    for i in 0..e.len() {
+        for j in i + 1..e.len() {
+            if (0..2).any(|rd| ref_cmp(&e[i].r, &e[j].r, evpn, rd).0 == Ordering::Equal) {
+                return true;
+            }
+        }
+    }
+    false
+}
+
+fn classify_panic(msg: &str) -> String {
+    let loc = bfs::panic_loc(msg);
+    let file = loc.split(':').next().unwrap_or("?").to_string();
+    if msg.contains("overflow") && file == "bgp.rs" {
+        "C02/panic/as-path-length-overflow".into()
+    } else {
+        format!("C02/panic/{}", loc)
+    }
+}
+
+// ---------------------------------------------------------------------------
+// Part (a): pairs and triples, every arrival order
+// ---------------------------------------------------------------------------
+
+/// A path kind of part (a): one value per decision step plus eligibility.
+#[derive(Clone, Copy, Debug, PartialEq, Eq, Hash, PartialOrd, Ord)]
+struct Kind {
+    mm: u8,     // 0 none, 1 seq 0, 2 seq 5
+    llgr: u8,   // 0 no, 1 source flag, 2 LLGR_STALE community
+    lp: u8,     // 0 absent, 1 = 100, 2 = 200
+    asp: u8,    // index into asp_spec
+    origin: u8, // 0 1 2
+    role: u8,   // index into ROLES
+    gr: u8,     // 0 no, 1 source marked stale
+    cl: u8,     // 0 absent, 1, 2
+    rid: u8,    // 0 low router-id, 1 high router-id, 2 ORIGINATOR_ID below both, 3 ORIGINATOR_ID shared by all
+    elig: u8,   // 0 ok, 1 filtered, 2 next hop unreachable
+}
+
+const KDIMS: usize = 10;
+const FULL: [usize; KDIMS] = [3, 3, 3, 9, 3, 5, 2, 3, 4, 3];
+
+impl Kind {
+    fn from(d: &[u8]) -> Kind {
+        Kind { mm: d[0], llgr: d[1], lp: d[2], asp: d[3], origin: d[4], role: d[5], gr: d[6], cl: d[7], rid: d[8], elig: d[9] }
+    }
+    fn arr(&self) -> [u8; KDIMS] {
+        [self.mm, self.llgr, self.lp, self.asp, self.origin, self.role, self.gr, self.cl, self.rid, self.elig]
+    }
+    fn code(&self) -> String {
+        self.arr().iter().map(|x| x.to_string()).collect::<Vec<_>>().join(".")
+    }
+    fn parse(s: &str) -> Option<Kind> {
+        let d: Vec<u8> = s.split('.').filter_map(|x| x.parse().ok()).collect();
+        if d.len() != KDIMS || d.iter().zip(FULL.iter()).any(|(v, m)| *v as usize >= *m) {
+            return None;
+        }
+        Some(Kind::from(&d))
+    }
+    fn attrk(&self, slot: usize) -> AttrK {
+        AttrK {
+            mm: self.mm,
+            comm: self.llgr == 2,
+            lp: self.lp,
+            asp: self.asp,
+            origin: self.origin,
+            cl: self.cl,
+            orig: match self.rid {
+                2 => Some(0x0a000001 + slot as u32),
+                3 => Some(0x0a000000),
+                _ => None,
+            },
+            med: false,
+        }
+    }
+    fn router_id(&self, slot: usize) -> u32 {
+        match self.rid {
+            0 => 0x0a0a0010 + slot as u32,
+            _ => 0x0a0a0080 + slot as u32,
+        }
+    }
+    fn describe(&self, slot: usize) -> String {
+        format!(
+            "p{}<{} {}{}{} rid{:x}{}>",
+            slot,
+            ROLE_NAMES[self.role as usize],
+            attr_name(&self.attrk(slot)),
+            if self.llgr == 1 { " llgr-flag" } else { "" },
+            if self.gr == 1 { " gr-stale" } else { "" },
+            self.router_id(slot),
+            ["", " FILTERED", " NH-INVALID"][self.elig as usize]
+        )
+    }
+}
+
+/// Product of per-dimension value lists.
+fn product(dom: &[Vec<u8>; KDIMS]) -> Vec<Kind> {
+    let dims: Vec<usize> = dom.iter().map(|d| d.len()).collect();
+    let n = enumr::product_size(&dims);
+    (0..n)
+        .map(|i| {
+            let dg = enumr::digits(i, &dims);
+            let v: Vec<u8> = dg.iter().enumerate().map(|(k, &x)| dom[k][x]).collect();
+            Kind::from(&v)
+        })
+        .collect()
+}
+
+struct SetOutcome {
+    viols: Vec<Violation>,
+    tables: u64,
+    nontrivial: bool,
+    /// deciding step between the two best eligible paths (for non-vacuity counters)
+    decided: Option<usize>,
+    outcome: String,
+}
+
+fn case_str(tag: &str, evpn: bool, kinds: &[Kind], order: Option<&[usize]>) -> String {
+    format!(
+        "A:{}:{}:{}:{}",
+        tag,
+        if evpn { "evpn" } else { "v4" },
+        kinds.iter().map(|k| k.code()).collect::<Vec<_>>().join("/"),
+        match order {
+            Some(o) => o.iter().map(|x| x.to_string()).collect::<Vec<_>>().join(""),
+            None => "*".into(),
+        }
+    )
+}
+
+/// Build the slot's Source/attributes and the harness-side description.
+fn slot_objects(kinds: &[Kind]) -> (Vec<Arc<Source>>, Vec<Arc<Vec<Attribute>>>, Vec<PInfo>) {
+    let mut srcs = Vec::new();
+    let mut attrs = Vec::new();
+    let mut infos = Vec::new();
+    for (slot, k) in kinds.iter().enumerate() {
+        let role = ROLES[k.role as usize];
+        let s = source(slot as u8 + 1, role, k.router_id(slot));
+        if k.gr == 1 {
+            s.mark_stale();
+        }
+        if k.llgr == 1 {
+            s.mark_llgr_stale();
+        }
+        let ak = k.attrk(slot);
+        let a = Arc::new(build_attrs(&ak));
+        infos.push(PInfo {
+            label: k.describe(slot),
+            r: ref_of(&ak, role, k.router_id(slot), k.gr == 1, k.llgr == 1),
+            filtered: k.elig == 1,
+            nh_invalid: k.elig == 2,
+            rs_client: role == PeerRole::RsClient,
+            addr: s.remote_addr,
+            src_ptr: Arc::as_ptr(&s) as usize,
+            attr_ptr: Arc::as_ptr(&a) as usize,
+        });
+        srcs.push(s);
+        attrs.push(a);
+    }
+    (srcs, attrs, infos)
+}
+
+/// One set of kinds, all arrival orders.
+fn run_set(tag: &str, evpn: bool, kinds: &[Kind], perms: &[Vec<usize>], verbose: bool) -> SetOutcome {
+    let (fam, net) = the_net(evpn);
+    let mut viols: Vec<Violation> = Vec::new();
+    let mut tables = 0u64;
+    let mut finals: Vec<(Vec<usize>, Ranking)> = Vec::new();
+    let mut any_order_broken = false;
+    let (srcs, attrs, infos) = slot_objects(kinds);
+    let mut viewers: Vec<IpAddr> = infos.iter().map(|p| p.addr).collect();
+    viewers.push(IpAddr::V4(Ipv4Addr::new(10, 0, 0, 200)));
+    for order in perms {
+        tables += 1;
+        let r = report::catch(|| {
+            let mut t = Table::new(0);
+            let mut out: Vec<(String, String)> = Vec::new();
+            let mut present: Vec<usize> = Vec::new();
+            let mut last = None;
+            for (step, &slot) in order.iter().enumerate() {
+                let k = &kinds[slot];
+                let res = t.insert(
+                    srcs[slot].clone(),
+                    fam,
+                    net.clone(),
+                    0,
+                    nh4(1 + slot as u8),
+                    attrs[slot].clone(),
+                    None,
+                    k.elig == 1,
+                    k.elig == 2,
+                    None,
+                    0,
+                );
+                present.push(slot);
+                // the oracle sees only the paths inserted so far
+                let cur: Vec<PInfo> = infos
+                    .iter()
+                    .enumerate()
+                    .map(|(i, p)| PInfo {
+                        label: p.label.clone(),
+                        r: p.r.clone(),
+                        filtered: p.filtered,
+                        nh_invalid: p.nh_invalid,
+                        rs_client: p.rs_client,
+                        addr: p.addr,
+                        // paths not yet inserted are unknown to the table
+                        src_ptr: if present.contains(&i) { p.src_ptr } else { 0 },
+                        attr_ptr: if present.contains(&i) { p.attr_ptr } else { 0 },
+                    })
+                    .filter(|p| p.src_ptr != 0)
+                    .collect();
+                // `cur` is indexed by position among present slots in slot order: map back for labels only
+                let obs = observe_table(&t, fam, &net, &cur, &viewers);
+                let (mut v, reading) = judge_any(&cur, &obs, evpn);
+                if let InsertResult::Changed(c) = &res {
+                    let rk = ranking_of(&cur, c);
+                    if rk != obs.rk {
+                        let (v2, _) = judge_ranking(&cur, &rk, evpn, reading, "change returned by insert");
+                        v.extend(v2);
+                    }
+                }
+                if verbose {
+                    eprintln!(
+                        "    after insert #{step} ({}): ranked {} ecmp {} global {} rs {:?} -> {} violation(s)",
+                        infos[slot].label,
+                        labs(&cur, &obs.rk.ranked),
+                        obs.rk.ecmp.len(),
+                        labs(&cur, &obs.global),
+                        obs.rs.iter().map(|(a, s)| format!("{a}:{}", labs(&cur, s))).collect::<Vec<_>>(),
+                        v.len()
+                    );
+                }
+                out.extend(v);
+                if step + 1 == order.len() {
+                    // final ranking expressed in slot numbers
+                    let slots_present: Vec<usize> = (0..infos.len()).filter(|i| present.contains(i)).collect();
+                    let to_slot = |v: &Vec<usize>| v.iter().map(|&i| if i == UNKNOWN { UNKNOWN } else { slots_present[i] }).collect::<Vec<usize>>();
+                    last = Some(Ranking { ranked: to_slot(&obs.rk.ranked), ecmp: to_slot(&obs.rk.ecmp), best: obs.rk.best.map(|b| if b == UNKNOWN { UNKNOWN } else { slots_present[b] }) });
+                }
+            }
+            (out, last)
+        });
+        match r {
+            Ok((out, last)) => {
+                if out.iter().any(|(s, _)| s.starts_with("C02/order") || s.starts_with("C02/eligibility")) {
+                    any_order_broken = true;
+                }
+                let mut seen = BTreeSet::new();
+                for (sig, what) in out {
+                    if seen.insert(sig.clone()) {
+                        viols.push(Violation { sig, what, case: case_str(tag, evpn, kinds, Some(order)) });
+                    }
+                }
+                if let Some(l) = last {
+                    finals.push((order.clone(), l));
+                }
+            }
+            Err(msg) => {
+                any_order_broken = true;
+                viols.push(Violation {
+                    sig: classify_panic(&msg),
+                    what: format!(
+                        "the table panicked while selecting among {} (arrival order {:?}): {msg}; best-path selection must work for every AS_PATH that fits a message",
+                        infos.iter().map(|p| p.label.clone()).collect::<Vec<_>>().join(" | "),
+                        order
+                    ),
+                    case: case_str(tag, evpn, kinds, Some(order)),
+                });
+            }
+        }
+    }
+    // arrival-order independence (sets without complete ties)
+    if finals.len() > 1 && !has_complete_tie(&infos, evpn) {
+        let first = &finals[0];
+        if let Some(other) = finals.iter().find(|f| f.1.ranked != first.1.ranked) {
+            // which pair flips?
+            let a = &first.1.ranked;
+            let b = &other.1.ranked;
+            let mut shape = "membership".to_string();
+            'o: for i in 0..a.len() {
+                for j in i + 1..a.len() {
+                    let (x, y) = (a[i], a[j]);
+                    let (px, py) = (b.iter().position(|&z| z == x), b.iter().position(|&z| z == y));
+                    if let (Some(px), Some(py)) = (px, py) {
+                        if px > py && x != UNKNOWN && y != UNKNOWN {
+                            let d = ref_cmp(&infos[x].r, &infos[y].r, evpn, 1).1;
+                            shape = STEPS[d.min(8)].to_string();
+                            break 'o;
+                        }
+                    }
+                }
+            }
+            let sig = format!("C02/arrival-order-dependent/{shape}");
+            // if every order was already flagged for a wrong ranking the root cause is reported there;
+            // the dependence is still a distinct clause of the statement, so it is reported too
+            let _ = any_order_broken;
+            viols.push(Violation {
+                sig,
+                what: format!(
+                    "the same set of paths ranks as {} when arriving in order {:?} but as {} in order {:?}",
+                    labs(&infos, &first.1.ranked),
+                    first.0,
+                    labs(&infos, &other.1.ranked),
+                    other.0
+                ),
+                case: case_str(tag, evpn, kinds, None),
+            });
+        }
+    }
+    let elig: Vec<usize> = (0..infos.len()).filter(|&i| infos[i].eligible()).collect();
+    let nontrivial = elig.len() >= 2;
+    let mut decided = None;
+    if nontrivial {
+        // deciding step between the reference-best and the runner-up
+        let mut e = elig.clone();
+        e.sort_by(|&x, &y| ref_cmp(&infos[x].r, &infos[y].r, evpn, 1).0);
+        decided = Some(ref_cmp(&infos[e[0]].r, &infos[e[1]].r, evpn, 1).1);
+    }
+    let outcome = match finals.first() {
+        Some((_, rk)) => format!("n{}:{}:e{}", infos.len(), rk.ranked.iter().map(|x| if *x == UNKNOWN { "?".into() } else { x.to_string() }).collect::<Vec<_>>().join(""), rk.ecmp.len()),
+        None => "panic".into(),
+    };
+    SetOutcome { viols, tables, nontrivial, decided, outcome }
+}
+
+fn account(local: &mut Report, tag: &str, o: SetOutcome, sample: impl FnOnce() -> String, idx: u64) {
+    local.evaluations += o.tables;
+    if o.nontrivial {
+        local.distinct_nontrivial += 1;
+    }
+    local.add(&format!("a.{tag}.sets"), 1);
+    if let Some(d) = o.decided {
+        local.add(&format!("a.decided-at.{}", if d >= 9 { "complete-tie" } else { STEPS[d] }), 1);
+    }
+    local.add(&format!("a.outcome.{}", o.outcome), 1);
+    if !o.viols.is_empty() {
+        local.add(&format!("a.{tag}.sets-with-violation"), 1);
+    }
+    local.violations_from(o.viols);
+    if idx % 200_003 == 17 {
+        if local.samples.len() < 2 {
+            local.samples.push(sample());
+        }
+    }
+}
+
+/// All ordered pairs over `kinds`.
+fn sweep_pairs(tag: &str, evpn: bool, kinds: &[Kind], rep: &mut Report) {
+    let k = kinds.len() as u64;
+    let perms = enumr::permutations(2);
+    let t0 = std::time::Instant::now();
+    let before = rep.evaluations;
+    enumr::par_range(k * k, rep, |i, local| {
+        let set = [kinds[(i / k) as usize], kinds[(i % k) as usize]];
+        let o = run_set(tag, evpn, &set, &perms, false);
+        account(local, tag, o, || format!("pair {} = {} vs {}", case_str(tag, evpn, &set, None), set[0].describe(0), set[1].describe(1)), i);
+    });
+    rep.notes.push(format!(
+        "(a) {tag}: {} kinds, {} ordered pairs x 2 arrival orders = {} tables, wall {:.1}s",
+        k,
+        k * k,
+        rep.evaluations - before,
+        t0.elapsed().as_secs_f64()
+    ));
+}
+
+/// All ordered triples over `kinds`.
+fn sweep_triples(tag: &str, evpn: bool, kinds: &[Kind], rep: &mut Report) {
+    let k = kinds.len() as u64;
+    let perms = enumr::permutations(3);
+    let t0 = std::time::Instant::now();
+    let before = rep.evaluations;
+    enumr::par_range(k * k * k, rep, |i, local| {
+        let set = [kinds[(i / (k * k)) as usize], kinds[((i / k) % k) as usize], kinds[(i % k) as usize]];
+        let o = run_set(tag, evpn, &set, &perms, false);
+        account(local, tag, o, || format!("triple {}", case_str(tag, evpn, &set, None)), i);
+    });
+    rep.notes.push(format!(
+        "(a) {tag}: {} cover kinds, {} ordered triples x 6 arrival orders = {} tables, wall {:.1}s",
+        k,
+        k * k * k,
+        rep.evaluations - before,
+        t0.elapsed().as_secs_f64()
+    ));
+}
+
+fn dom(v: [&[u8]; KDIMS]) -> [Vec<u8>; KDIMS] {
+    [v[0].to_vec(), v[1].to_vec(), v[2].to_vec(), v[3].to_vec(), v[4].to_vec(), v[5].to_vec(), v[6].to_vec(), v[7].to_vec(), v[8].to_vec(), v[9].to_vec()]
+}
+
+/// Reduced product for IPv4 (mm fixed to none).
+fn reduced_v4() -> [Vec<u8>; KDIMS] {
+    //      mm    llgr        lp      as-path      origin  role(ebgp,ibgp) gr     cl      rid     elig
+    dom([&[0], &[0, 1, 2], &[0, 2], &[1, 2, 5], &[0, 2], &[0, 2], &[0, 1], &[0, 1], &[0, 1], &[0, 2]])
+}
+
+/// Two values per step (the base of the axis sweeps).
+fn two_v4() -> [Vec<u8>; KDIMS] {
+    dom([&[0], &[0, 1], &[1, 2], &[1, 2], &[0, 2], &[0, 2], &[0, 1], &[0, 1], &[0, 1], &[0, 1]])
+}
+
+fn three_v4() -> [Vec<u8>; KDIMS] {
+    dom([&[0], &[0, 1, 2], &[0, 1, 2], &[1, 2, 5, 6], &[0, 1, 2], &[0, 2, 4], &[0, 1], &[0, 1, 2], &[0, 1, 2], &[0, 1, 2]])
+}
+
+fn reduced_evpn() -> [Vec<u8>; KDIMS] {
+    dom([&[0, 1, 2], &[0, 1], &[1, 2], &[1, 2], &[0], &[0, 2], &[0, 1], &[0], &[0, 1], &[0, 1]])
+}
+
+/// Cover for the triples: a baseline, every single-step deviation (better and
+/// worse where the domain has one), and — `doubles` — every "worse at step i,
+/// better at a later step j" kind, which is what exposes a mis-placed step.
+fn cover(evpn: bool, doubles: bool) -> Vec<Kind> {
+    // baseline: middle values so that both a better and a worse neighbour exist
+    let base = Kind { mm: if evpn { 1 } else { 0 }, llgr: 0, lp: 1, asp: 2, origin: 1, role: 2, gr: 0, cl: 1, rid: 1, elig: 0 };
+    // per ranking dimension: (better values, worse values)
+    let better: [&[u8]; KDIMS] = [&[2], &[], &[2], &[1, 3, 4], &[0], &[0, 1], &[], &[0], &[0, 2], &[]];
+    let worse: [&[u8]; KDIMS] = [&[0], &[1, 2], &[], &[5, 6, 7], &[2], &[4], &[1], &[2], &[3], &[1, 2]];
+    let set = |k: &Kind, d: usize, v: u8| {
+        let mut a = k.arr();
+        a[d] = v;
+        Kind::from(&a)
+    };
+    let mut out = vec![base];
+    let first = if evpn { 0 } else { 1 };
+    for d in first..KDIMS {
+        for &v in better[d].iter().chain(worse[d].iter()) {
+            out.push(set(&base, d, v));
+        }
+    }
+    // lp absent (= 100) collides with the baseline
+    out.push(set(&base, 2, 0));
+    if doubles {
+        for i in first..9 {
+            for j in i + 1..9 {
+                if let (Some(&w), Some(&b)) = (worse[i].first(), better[j].first()) {
+                    out.push(set(&set(&base, i, w), j, b));
+                }
+            }
+        }
+    }
+    out.sort();
+    out.dedup();
+    out
+}
+
+/// Axis sweep: step `d` takes its full domain, the others two values each.
+fn axis_kinds(d: usize) -> Vec<Kind> {
+    let mut dm = two_v4();
+    dm[d] = (0..FULL[d] as u8).collect();
+    product(&dm)
+}
+
+fn part_a(rep: &mut Report) {
+    let thorough = rep.thorough();
+    // IPv4 pairs
+    let kinds = product(&reduced_v4());
+    sweep_pairs("pairs-v4", false, &kinds, rep);
+    let ek = product(&reduced_evpn());
+    sweep_pairs("pairs-evpn", true, &ek, rep);
+    sweep_triples("triples-v4", false, &cover(false, thorough), rep);
+    sweep_triples("triples-evpn", true, &cover(true, false), rep);
+    if thorough {
+        for d in 1..KDIMS {
+            let ks = axis_kinds(d);
+            sweep_pairs(&format!("axis{}-v4", d), false, &ks, rep);
+        }
+        let k3 = product(&three_v4());
+        sweep_pairs("pairs3-v4", false, &k3, rep);
+    }
+}
+
+fn replay_a(case: &str, rep: &mut Report) {
+    // A:<tag>:<fam>:<k/k/k>:<order|*>
+    let f: Vec<&str> = case.split(':').collect();
+    if f.len() != 5 {
+        rep.machinery_error = Some(format!("bad case {case}"));
+        return;
+    }
+    let evpn = f[2] == "evpn";
+    let kinds: Option<Vec<Kind>> = f[3].split('/').map(Kind::parse).collect();
+    let Some(kinds) = kinds else {
+        rep.machinery_error = Some(format!("bad kinds in {case}"));
+        return;
+    };
+    let perms: Vec<Vec<usize>> = if f[4] == "*" {
+        enumr::permutations(kinds.len())
+    } else {
+        vec![f[4].chars().filter_map(|c| c.to_digit(10).map(|x| x as usize)).collect()]
+    };
+    for (i, k) in kinds.iter().enumerate() {
+        eprintln!("  {}", k.describe(i));
+    }
+    for p in &perms {
+        eprintln!("  arrival order {:?}", p);
+        let o = run_set(f[1], evpn, &kinds, std::slice::from_ref(p), true);
+        rep.evaluations += o.tables;
+        for v in &o.viols {
+            eprintln!("    VIOLATION {} :: {}", v.sig, v.what);
+        }
+        rep.violations_from(o.viols);
+    }
+    if perms.len() > 1 {
+        let o = run_set(f[1], evpn, &kinds, &perms, false);
+        rep.violations_from(o.viols.into_iter().filter(|v| v.sig.starts_with("C02/arrival-order")).collect());
+    }
+}
+
+// ---------------------------------------------------------------------------
+// Part (b): histories on one prefix
+// ---------------------------------------------------------------------------
+
+#[derive(Clone, Debug, PartialEq)]
+enum Op {
+    Insert { peer: u8, id: u32, kind: u8, nh: u8, filtered: bool },
+    Remove { peer: u8, id: u32 },
+    /// session ends without GR: Table::drop; next session = new Source
+    Drop { peer: u8 },
+    /// session ends with GR: Table::restale; next session = new Source
+    Restale { peer: u8 },
+    /// LLGR period starts: restale_llgr (+ drop_no_llgr as the daemon does)
+    MarkLlgr { peer: u8 },
+    DropStale { peer: u8 },
+    DropLlgrStale { peer: u8 },
+    Reconnect { peer: u8 },
+    Nh { nh: u8, up: bool },
+}
+
+struct Rec {
+    kind: u8,
+    nh: u8,
+    filtered: bool,
+}
+
+pub struct Sys {
+    t: Table,
+    sessions: [Vec<Arc<Source>>; 3],
+    up: [bool; 3],
+    invalid: BTreeSet<u8>,
+    /// (source ptr, remote path id) -> what the harness inserted there
+    mirror: BTreeMap<(usize, u32), Rec>,
+    /// signatures currently failing: reported only on the step that breaks them
+    broken: BTreeSet<String>,
+}
+
+pub struct HistModel {
+    name: String,
+    evpn: bool,
+    roles: [PeerRole; 3],
+    rids: [u32; 3],
+    kinds: Vec<(&'static str, AttrK)>,
+    ops: Vec<Op>,
+    max_sessions: usize,
+}
+
+const PEER_NAMES: [&str; 3] = ["A", "B", "C"];
+
+impl HistModel {
+    fn op_str(&self, o: &Op) -> String {
+        let p = |x: &u8| PEER_NAMES[*x as usize];
+        match o {
+            Op::Insert { peer, id, kind, nh, filtered } => format!("insert({},id{},{},N{}{})", p(peer), id, self.kinds[*kind as usize].0, nh + 1, if *filtered { ",filtered" } else { "" }),
+            Op::Remove { peer, id } => format!("remove({},id{})", p(peer), id),
+            Op::Drop { peer } => format!("drop({})", p(peer)),
+            Op::Restale { peer } => format!("restale({})", p(peer)),
+            Op::MarkLlgr { peer } => format!("restale_llgr({})", p(peer)),
+            Op::DropStale { peer } => format!("drop_stale({})", p(peer)),
+            Op::DropLlgrStale { peer } => format!("drop_llgr_stale({})", p(peer)),
+            Op::Reconnect { peer } => format!("reconnect({})", p(peer)),
+            Op::Nh { nh, up } => format!("nexthop(N{},{})", nh + 1, if *up { "up" } else { "down" }),
+        }
+    }
+    fn mk_source(&self, peer: u8) -> Arc<Source> {
+        source(peer + 1, self.roles[peer as usize], self.rids[peer as usize])
+    }
+    fn session_index(sys: &Sys, ptr: usize) -> Option<(usize, usize)> {
+        for (p, v) in sys.sessions.iter().enumerate() {
+            for (i, s) in v.iter().enumerate() {
+                if Arc::as_ptr(s) as usize == ptr {
+                    return Some((p, i));
+                }
+            }
+        }
+        None
+    }
+
+    /// The current set of paths as the table lists it (all entries, entry order),
+    /// described from the harness's records and the sources' current flags.
+    fn current_set(&self, sys: &Sys) -> (Vec<PInfo>, Vec<(usize, usize, u32, u8, u8, bool)>) {
+        let (fam, net) = the_net(self.evpn);
+        let mut infos = Vec::new();
+        let mut keys = Vec::new();
+        for d in sys.t.destinations(TableQuery::Global, fam, vec![], true) {
+            if d.net != net {
+                continue;
+            }
+            for pe in &d.paths {
+                let sp = Arc::as_ptr(&pe.source) as usize;
+                let (peer, sess) = Self::session_index(sys, sp).unwrap_or((9, 9));
+                let rec = sys.mirror.get(&(sp, pe.remote_path_id));
+                let (kind, nh, filtered) = match rec {
+                    Some(r) => (r.kind, r.nh, r.filtered),
+                    None => (0, 0, pe.filtered),
+                };
+                if rec.is_none() || peer == 9 || pe.filtered != filtered {
+                    panic!("harness: table lists an entry the harness has no record of (peer {peer} session {sess} id {})", pe.remote_path_id);
+                }
+                let ak = &self.kinds[kind as usize].1;
+                let gr = pe.source.is_stale();
+                let lf = pe.source.is_llgr_stale();
+                infos.push(PInfo {
+                    label: format!(
+                        "{}{}#{}<{} N{}{}{}{}{}>",
+                        PEER_NAMES[peer],
+                        "'".repeat(sess),
+                        pe.remote_path_id,
+                        self.kinds[kind as usize].0,
+                        nh + 1,
+                        if gr { " gr-stale" } else { "" },
+                        if lf { " llgr-flag" } else { "" },
+                        if filtered { " FILTERED" } else { "" },
+                        if sys.invalid.contains(&nh) { " NH-INVALID" } else { "" }
+                    ),
+                    r: ref_of(ak, self.roles[peer], self.rids[peer], gr, lf),
+                    filtered,
+                    nh_invalid: sys.invalid.contains(&nh),
+                    rs_client: self.roles[peer] == PeerRole::RsClient,
+                    addr: pe.source.remote_addr,
+                    src_ptr: sp,
+                    attr_ptr: Arc::as_ptr(&pe.attr) as usize,
+                });
+                keys.push((peer, sess, pe.remote_path_id, kind, nh, filtered));
+            }
+        }
+        (infos, keys)
+    }
+
+    /// Ranking a fresh table gives for the same current set (same flags), inserted in `order`.
+    fn from_scratch(&self, sys: &Sys, infos: &[PInfo], keys: &[(usize, usize, u32, u8, u8, bool)], order: &[usize]) -> Vec<usize> {
+        let (fam, net) = the_net(self.evpn);
+        let mut t = Table::new(0);
+        let mut fresh: BTreeMap<(usize, usize), Arc<Source>> = BTreeMap::new();
+        let mut scratch_infos: Vec<(usize, usize)> = vec![(0, 0); infos.len()];
+        for &i in order {
+            let (peer, sess, id, kind, nh, filtered) = keys[i];
+            let src = fresh
+                .entry((peer, sess))
+                .or_insert_with(|| {
+                    let s = self.mk_source(peer as u8);
+                    let old = &sys.sessions[peer][sess];
+                    if old.is_stale() {
+                        s.mark_stale();
+                    }
+                    if old.is_llgr_stale() {
+                        s.mark_llgr_stale();
+                    }
+                    s
+                })
+                .clone();
+            let a = Arc::new(build_attrs(&self.kinds[kind as usize].1));
+            scratch_infos[i] = (Arc::as_ptr(&src) as usize, Arc::as_ptr(&a) as usize);
+            t.insert(src, fam, net.clone(), id, nh4(1 + nh), a, None, filtered, sys.invalid.contains(&nh), None, 0);
+        }
+        let dump = t.collect_loc_rib_paths(&fam);
+        match dump.iter().find(|c| c.net == net) {
+            Some(c) => c
+                .current_paths
+                .iter()
+                .map(|p| {
+                    let k = (Arc::as_ptr(&p.source) as usize, Arc::as_ptr(&p.attr) as usize);
+                    scratch_infos.iter().position(|x| *x == k).unwrap_or(UNKNOWN)
+                })
+                .collect(),
+            None => vec![],
+        }
+    }
+
+    fn check(&self, sys: &Sys, changes: &[NlriChange], opname: &str, out: &mut Vec<(String, String)>) {
+        let (fam, net) = the_net(self.evpn);
+        let (infos, keys) = self.current_set(sys);
+        let viewers: Vec<IpAddr> = (0..3u8).map(|p| peer_addr(p + 1)).collect();
+        let obs = observe_table(&sys.t, fam, &net, &infos, &viewers);
+        let (v, reading) = judge_any(&infos, &obs, self.evpn);
+        for (sig, what) in v {
+            out.push((sig, format!("after {opname}: {what}")));
+        }
+        // what the operation itself announced (installed / exported from it)
+        if let Some(c) = changes.iter().rev().find(|c| c.net == net) {
+            let rk = ranking_of(&infos, c);
+            if rk != obs.rk {
+                let (v2, _) = judge_ranking(&infos, &rk, self.evpn, reading, "change returned by the operation");
+                for (sig, what) in v2 {
+                    out.push((sig, format!("after {opname}: {what}")));
+                }
+            }
+        }
+        // "the outcome depends only on the current set of paths": a fresh table fed the same
+        // set (same stale flags) must rank it the same way, up to complete ties
+        if !infos.is_empty() {
+            let fwd: Vec<usize> = (0..infos.len()).collect();
+            let rev: Vec<usize> = (0..infos.len()).rev().collect();
+            for order in [&fwd, &rev] {
+                let sc = self.from_scratch(sys, &infos, &keys, order);
+                let live = &obs.rk.ranked;
+                let same = sc.len() == live.len()
+                    && sc.iter().zip(live.iter()).all(|(&a, &b)| a == b || (a != UNKNOWN && b != UNKNOWN && (0..2).any(|rd| ref_cmp(&infos[a].r, &infos[b].r, self.evpn, rd).0 == Ordering::Equal)));
+                if !same {
+                    let mut shape = "membership".to_string();
+                    if let Some((&a, &b)) = sc.iter().zip(live.iter()).find(|(a, b)| a != b) {
+                        if a != UNKNOWN && b != UNKNOWN {
+                            shape = STEPS[ref_cmp(&infos[a].r, &infos[b].r, self.evpn, 1).1.min(8)].to_string();
+                        }
+                    }
+                    out.push((
+                        format!("C02/history-dependent/{}/{}", opname.split('(').next().unwrap_or("?"), shape),
+                        format!("after {opname}: the table ranks the current paths as {} but a fresh table given the same paths with the same stale flags ranks them {}", labs(&infos, live), labs(&infos, &sc)),
+                    ));
+                    break;
+                }
+            }
+        }
+    }
+}
+
+impl Model for HistModel {
+    type Sys = Sys;
+    fn name(&self) -> String {
+        self.name.clone()
+    }
+    fn n_ops(&self) -> usize {
+        self.ops.len()
+    }
+    fn op_name(&self, op: usize) -> String {
+        self.op_str(&self.ops[op])
+    }
+    fn init(&self) -> Sys {
+        Sys {
+            t: Table::new(0),
+            sessions: [vec![self.mk_source(0)], vec![self.mk_source(1)], vec![self.mk_source(2)]],
+            up: [true; 3],
+            invalid: BTreeSet::new(),
+            mirror: BTreeMap::new(),
+            broken: BTreeSet::new(),
+        }
+    }
+
+    fn step(&self, sys: &mut Sys, op: usize, out: &mut Vec<(String, String)>) -> bool {
+        let (fam, net) = the_net(self.evpn);
+        let o = &self.ops[op];
+        let name = self.op_str(o);
+        let mut changes: Vec<NlriChange> = Vec::new();
+        let cur = |sys: &Sys, p: u8| sys.sessions[p as usize].last().unwrap().clone();
+        match o {
+            Op::Insert { peer, id, kind, nh, filtered } => {
+                if !sys.up[*peer as usize] {
+                    return false;
+                }
+                let src = cur(sys, *peer);
+                let a = Arc::new(build_attrs(&self.kinds[*kind as usize].1));
+                sys.mirror.insert((Arc::as_ptr(&src) as usize, *id), Rec { kind: *kind, nh: *nh, filtered: *filtered });
+                if let InsertResult::Changed(c) = sys.t.insert(src, fam, net.clone(), *id, nh4(1 + *nh), a, None, *filtered, sys.invalid.contains(nh), None, 0) {
+                    changes.push(c);
+                }
+            }
+            Op::Remove { peer, id } => {
+                if !sys.up[*peer as usize] {
+                    return false;
+                }
+                let (c, _) = sys.t.remove(cur(sys, *peer), fam, net.clone(), *id, None);
+                changes.extend(c);
+            }
+            Op::Drop { peer } => {
+                if !sys.up[*peer as usize] {
+                    return false;
+                }
+                let (cs, _) = sys.t.drop(peer_addr(*peer + 1), fam);
+                changes.extend(cs);
+                sys.up[*peer as usize] = false;
+            }
+            Op::Restale { peer } => {
+                if !sys.up[*peer as usize] {
+                    return false;
+                }
+                changes.extend(sys.t.restale(peer_addr(*peer + 1), fam));
+                sys.up[*peer as usize] = false;
+            }
+            Op::MarkLlgr { peer } => {
+                // LLGR period begins: directly when an LLGR-only session drops, or when the GR
+                // restart timer expires while the peer is down; never while a re-established
+                // session is up (the timer is cancelled then)
+                if sys.up[*peer as usize] && sys.sessions[*peer as usize].len() > 1 {
+                    return false;
+                }
+                let addr = peer_addr(*peer + 1);
+                changes.extend(sys.t.restale_llgr(addr, fam));
+                let (cs, _) = sys.t.drop_no_llgr(addr, fam, None);
+                changes.extend(cs);
+                sys.up[*peer as usize] = false;
+            }
+            Op::DropStale { peer } => {
+                let (cs, _) = sys.t.drop_stale(peer_addr(*peer + 1), fam, None);
+                changes.extend(cs);
+            }
+            Op::DropLlgrStale { peer } => {
+                let (cs, _) = sys.t.drop_llgr_stale(peer_addr(*peer + 1), fam, None);
+                changes.extend(cs);
+            }
+            Op::Reconnect { peer } => {
+                if sys.up[*peer as usize] || sys.sessions[*peer as usize].len() >= self.max_sessions {
+                    return false;
+                }
+                let s = self.mk_source(*peer);
+                sys.sessions[*peer as usize].push(s);
+                sys.up[*peer as usize] = true;
+            }
+            Op::Nh { nh, up } => {
+                if *up == !sys.invalid.contains(nh) {
+                    return false;
+                }
+                if *up {
+                    sys.invalid.remove(nh);
+                } else {
+                    sys.invalid.insert(*nh);
+                }
+                changes.extend(sys.t.update_nexthop_validity(nh4(1 + *nh).unwrap().addr(), *up));
+            }
+        }
+        let mut cur_v: Vec<(String, String)> = Vec::new();
+        self.check(sys, &changes, &name, &mut cur_v);
+        let mut now = BTreeSet::new();
+        for (sig, what) in cur_v {
+            // history-dependent signatures carry the op name: compare on the clause+shape without it
+            let key = if sig.starts_with("C02/history-dependent/") { format!("C02/history-dependent/{}", sig.rsplit('/').next().unwrap_or("")) } else { sig.clone() };
+            if !sys.broken.contains(&key) && !now.contains(&key) {
+                out.push((sig, what));
+            }
+            now.insert(key);
+        }
+        sys.broken = now;
+        true
+    }
+
+    fn fingerprint(&self, sys: &Sys) -> Vec<u8> {
+        use std::fmt::Write;
+        let mut s = String::new();
+        let (_, keys) = self.current_set(sys);
+        let _ = write!(s, "K{:?}", keys);
+        for v in &sys.sessions {
+            for x in v {
+                let _ = write!(s, "s{}{}", x.is_stale() as u8, x.is_llgr_stale() as u8);
+            }
+            s.push('|');
+        }
+        let _ = write!(s, "u{:?}i{:?}b{:?}", sys.up, sys.invalid, sys.broken);
+        s.into_bytes()
+    }
+
+    fn observe(&self, sys: &Sys) -> u64 {
+        let (fam, net) = the_net(self.evpn);
+        let (infos, keys) = self.current_set(sys);
+        let obs = observe_table(&sys.t, fam, &net, &infos, &[]);
+        let d: Vec<String> = obs.rk.ranked.iter().map(|&i| if i == UNKNOWN { "?".into() } else { format!("{:?}", (keys[i].0, keys[i].2, keys[i].3)) }).collect();
+        bfs::hash128(format!("{:?}e{}", d, obs.rk.ecmp.len()).as_bytes()) as u64
+    }
+
+    fn panic_sig(&self, msg: &str) -> Option<(String, String)> {
+        if msg.starts_with("harness:") {
+            return Some(("C02/harness-error".into(), msg.to_string()));
+        }
+        Some((classify_panic(msg), format!("the table panicked: {msg}")))
+    }
+}
+
+const K_X: AttrK = AttrK { mm: 0, comm: false, lp: 2, asp: 2, origin: 0, cl: 0, orig: None, med: false };
+const K_Y: AttrK = AttrK { mm: 0, comm: false, lp: 1, asp: 1, origin: 0, cl: 0, orig: None, med: false };
+const K_Z: AttrK = AttrK { mm: 0, comm: false, lp: 0, asp: 3, origin: 0, cl: 0, orig: None, med: true };
+const K_O: AttrK = AttrK { mm: 0, comm: false, lp: 1, asp: 1, origin: 2, cl: 0, orig: None, med: false };
+const K_S: AttrK = AttrK { mm: 0, comm: true, lp: 2, asp: 1, origin: 0, cl: 0, orig: None, med: false };
+const K_W: AttrK = AttrK { mm: 0, comm: false, lp: 1, asp: 5, origin: 0, cl: 0, orig: None, med: false };
+const K_C1: AttrK = AttrK { mm: 0, comm: false, lp: 1, asp: 1, origin: 0, cl: 1, orig: Some(0x0a000005), med: false };
+const K_C2: AttrK = AttrK { mm: 0, comm: false, lp: 1, asp: 1, origin: 0, cl: 2, orig: Some(0x0a000004), med: false };
+const K_M5: AttrK = AttrK { mm: 2, comm: false, lp: 1, asp: 2, origin: 0, cl: 0, orig: None, med: false };
+const K_M0: AttrK = AttrK { mm: 1, comm: false, lp: 2, asp: 1, origin: 0, cl: 0, orig: None, med: false };
+const K_MN: AttrK = AttrK { mm: 0, comm: false, lp: 2, asp: 1, origin: 0, cl: 0, orig: None, med: false };
+
+fn ins(peer: u8, id: u32, kind: u8, nh: u8) -> Op {
+    Op::Insert { peer, id, kind, nh, filtered: false }
+}
+fn insf(peer: u8, id: u32, kind: u8, nh: u8) -> Op {
+    Op::Insert { peer, id, kind, nh, filtered: true }
+}
+
+fn packs() -> Vec<HistModel> {
+    use PeerRole::*;
+    let mk = |name: &str, evpn: bool, roles: [PeerRole; 3], rids: [u32; 3], kinds: Vec<(&'static str, AttrK)>, ops: Vec<Op>| HistModel {
+        name: format!("c02-{name}"),
+        evpn,
+        roles,
+        rids,
+        kinds,
+        ops,
+        max_sessions: 2,
+    };
+    vec![
+        // stale / LLGR-stale marking against every earlier and later step
+        mk(
+            "stale",
+            false,
+            [Ebgp, Ibgp, ConfedEbgp],
+            [0x0a0a0030, 0x0a0a0020, 0x0a0a0010],
+            vec![("X", K_X), ("Y", K_Y), ("O", K_O)],
+            vec![
+                ins(0, 0, 1, 0), ins(1, 0, 1, 1), ins(2, 0, 1, 2), ins(1, 0, 0, 1), ins(0, 0, 2, 0), ins(2, 0, 0, 2),
+                Op::Restale { peer: 0 }, Op::Restale { peer: 1 }, Op::MarkLlgr { peer: 0 }, Op::MarkLlgr { peer: 1 },
+                Op::Reconnect { peer: 0 }, Op::Reconnect { peer: 1 }, Op::DropStale { peer: 0 }, Op::DropLlgrStale { peer: 0 },
+                Op::DropStale { peer: 1 }, Op::Drop { peer: 2 }, Op::Remove { peer: 1, id: 0 },
+            ],
+        ),
+        // LLGR_STALE community and add-path (two paths of one peer), ties before router-id
+        mk(
+            "llgr-comm",
+            false,
+            [Ebgp, Ebgp, Ibgp],
+            [0x0a0a0010, 0x0a0a0020, 0x0a0a0030],
+            vec![("X", K_X), ("Y", K_Y), ("S", K_S), ("Z", K_Z)],
+            vec![
+                ins(0, 0, 1, 0), ins(0, 1, 2, 0), ins(1, 0, 3, 1), ins(1, 0, 2, 1), ins(2, 0, 0, 2), ins(2, 0, 2, 2), ins(0, 0, 0, 0),
+                Op::Restale { peer: 0 }, Op::MarkLlgr { peer: 0 }, Op::MarkLlgr { peer: 1 }, Op::Reconnect { peer: 0 },
+                Op::DropStale { peer: 0 }, Op::DropLlgrStale { peer: 0 }, Op::DropLlgrStale { peer: 1 },
+                Op::Remove { peer: 0, id: 1 }, Op::Drop { peer: 1 },
+            ],
+        ),
+        // eligibility: import-filtered paths and next-hop validity flips
+        mk(
+            "nht",
+            false,
+            [Ebgp, Ibgp, Ebgp],
+            [0x0a0a0010, 0x0a0a0020, 0x0a0a0030],
+            vec![("X", K_X), ("Y", K_Y), ("Z", K_Z)],
+            vec![
+                ins(0, 0, 0, 0), ins(1, 0, 1, 1), ins(2, 0, 2, 0), ins(2, 0, 1, 1), insf(0, 0, 0, 0), insf(1, 0, 0, 1), ins(1, 0, 0, 0),
+                Op::Nh { nh: 0, up: false }, Op::Nh { nh: 0, up: true }, Op::Nh { nh: 1, up: false }, Op::Nh { nh: 1, up: true },
+                Op::Restale { peer: 0 }, Op::MarkLlgr { peer: 1 }, Op::Reconnect { peer: 0 }, Op::DropStale { peer: 0 }, Op::Remove { peer: 2, id: 0 }, Op::Drop { peer: 1 },
+            ],
+        ),
+        // route server: three RS clients (the RS-local view)
+        mk(
+            "rs",
+            false,
+            [RsClient, RsClient, RsClient],
+            [0x0a0a0030, 0x0a0a0020, 0x0a0a0010],
+            vec![("X", K_X), ("Y", K_Y), ("O", K_O)],
+            vec![
+                ins(0, 0, 1, 0), ins(1, 0, 1, 1), ins(2, 0, 1, 2), ins(0, 0, 0, 0), ins(1, 0, 2, 1), ins(2, 0, 0, 2), insf(1, 0, 0, 1),
+                Op::Nh { nh: 1, up: false }, Op::Nh { nh: 1, up: true },
+                Op::Restale { peer: 0 }, Op::MarkLlgr { peer: 2 }, Op::Reconnect { peer: 0 }, Op::DropStale { peer: 0 }, Op::Drop { peer: 1 }, Op::Remove { peer: 2, id: 0 },
+            ],
+        ),
+        // route reflection: CLUSTER_LIST / ORIGINATOR_ID steps after the stale step
+        mk(
+            "cluster",
+            false,
+            [IbgpRrClient, Ibgp, Ibgp],
+            [0x0a0a0010, 0x0a0a0020, 0x0a0a0030],
+            vec![("Y", K_Y), ("C1", K_C1), ("C2", K_C2)],
+            vec![
+                ins(0, 0, 0, 0), ins(0, 0, 1, 0), ins(1, 0, 1, 1), ins(1, 0, 2, 1), ins(2, 0, 2, 2), ins(2, 0, 0, 2),
+                Op::Restale { peer: 0 }, Op::Restale { peer: 1 }, Op::MarkLlgr { peer: 0 }, Op::MarkLlgr { peer: 2 },
+                Op::Reconnect { peer: 0 }, Op::Reconnect { peer: 1 }, Op::DropStale { peer: 0 }, Op::DropStale { peer: 1 }, Op::DropLlgrStale { peer: 2 }, Op::Remove { peer: 2, id: 0 },
+            ],
+        ),
+        // AS_PATH beyond 255 hops against short ones
+        mk(
+            "longpath",
+            false,
+            [Ebgp, Ebgp, Ibgp],
+            [0x0a0a0010, 0x0a0a0020, 0x0a0a0030],
+            vec![("Y", K_Y), ("W", K_W), ("O", K_O)],
+            vec![
+                ins(0, 0, 1, 0), ins(1, 0, 0, 1), ins(2, 0, 2, 2), ins(1, 0, 1, 1), ins(0, 0, 0, 0),
+                Op::Restale { peer: 0 }, Op::Reconnect { peer: 0 }, Op::DropStale { peer: 0 }, Op::Remove { peer: 1, id: 0 }, Op::Drop { peer: 2 },
+            ],
+        ),
+        // EVPN type-2: MAC mobility ahead of everything, also after re-marking
+        mk(
+            "evpn",
+            true,
+            [Ebgp, Ibgp, Ebgp],
+            [0x0a0a0010, 0x0a0a0020, 0x0a0a0030],
+            vec![("M5", K_M5), ("M0", K_M0), ("Mn", K_MN)],
+            vec![
+                ins(0, 0, 0, 0), ins(1, 0, 1, 1), ins(2, 0, 2, 2), ins(0, 0, 1, 0), ins(1, 0, 0, 1), ins(2, 0, 0, 2),
+                Op::Restale { peer: 0 }, Op::Restale { peer: 1 }, Op::MarkLlgr { peer: 1 }, Op::MarkLlgr { peer: 2 },
+                Op::Reconnect { peer: 0 }, Op::Reconnect { peer: 1 }, Op::DropStale { peer: 0 }, Op::DropLlgrStale { peer: 1 }, Op::Remove { peer: 2, id: 0 }, Op::Drop { peer: 2 },
+            ],
+        ),
+    ]
+}
+
+// ---------------------------------------------------------------------------
+
+pub fn run(replay: Option<&str>) -> Report {
     let mut rep = Report::new("C02", "hx-c02");
-    rep.machinery_error = Some("harness not built yet".into());
+    let models = packs();
+    if let Some(case) = replay {
+        if case.starts_with("A:") {
+            replay_a(case, &mut rep);
+            return rep;
+        }
+        let Some((name, hist)) = bfs::decode_case(case) else {
+            rep.machinery_error = Some("bad replay case".into());
+            return rep;
+        };
+        let Some(m) = models.iter().find(|m| m.name == name) else {
+            rep.machinery_error = Some(format!("unknown model {name}"));
+            return rep;
+        };
+        eprintln!("replay {}", bfs::render(m, &hist));
+        let vs = bfs::replay(m, &hist, true);
+        rep.evaluations = 1;
+        rep.violations_from(vs);
+        return rep;
+    }
+    let thorough = rep.thorough();
+    let depth = if thorough { 6 } else { 4 };
+    rep.rule = format!(
+        "(a) path kinds = product of small colliding per-step domains (LLGR-stale flag/community, LOCAL_PREF absent/100/200, AS_PATH shapes up to 510 hops, ORIGIN, role, GR-stale, CLUSTER_LIST, router-id/ORIGINATOR_ID, eligibility; MAC mobility for EVPN type-2); all ordered pairs of the reduced product and all ordered triples over a cover, each set inserted into a fresh real Table in every arrival order, oracle after every insert; {} \
+         (b) explicit-state BFS over histories on one prefix (insert/replace/remove/drop/restale/restale_llgr/drop_stale/drop_llgr_stale/next-hop flips/reconnect), {} packs, depth {}, oracle + from-scratch comparison after every step. \
+         non-trivial = set with at least two eligible paths (a) / distinct canonical state other than the initial one (b)",
+        if thorough { "thorough adds per-step full-domain axis sweeps and the 3-valued product;" } else { "" },
+        models.len(),
+        depth
+    );
+    part_a(&mut rep);
+    for m in &models {
+        let cfg = BfsCfg { max_depth: depth, max_secs: if thorough { 900 } else { 30 }, ..Default::default() };
+        bfs::bfs(m, &cfg, &mut rep);
+    }
+    rep.notes.push("assume: flags of part (a) are set on the Source before the insert (the state a fresh table would be given); flag flips on paths already listed are part (b)".into());
+    rep.notes.push("assume: the ECMP key of EVPN type-2 destinations is not judged against the MAC-mobility step (the ECMP set is only consumed for IP prefixes)".into());
     rep
 }
